@@ -45,9 +45,21 @@ def rule_r28_notnone_transparent(ctx, prog, rule="R28"):
                 if c.get("self_ty") == "T" and (c.get("trait") or "") == tr:
                     (same if callee_name(t) == name else other_t).append(callee_name(t))
         ok = len(same) == 1 and not other_t
-        ctx.ob(rule, "NotNone/%s::%s/forwards" % (tr.rsplit("::", 1)[-1], name), ok, b.where(),
-               "= T's own `%s` on the wrapped value" % name if ok else
-               "does not forward to T::%s exactly once (calls on T: %s)" % (name, same + other_t), what="wrapper changes the operation")
+        detail = "= T's own `%s` on the wrapped value" % name if ok else "does not forward to T::%s exactly once (calls on T: %s)" % (name, same + other_t)
+        if ok:
+            # operand roles: the k-th operand of T's method is (the value wrapped in) the k-th parameter – `self.cmp(self)`,
+            # `rhs - self` keep the method name and change the operation
+            roles = None
+            for g in group:
+                for bb, t in g.calls():
+                    c = t["callee"]
+                    if c.get("self_ty") == "T" and (c.get("trait") or "") == tr and callee_name(t) == name:
+                        roles = [operand_role(prog, g, a) for a in g.call_arg_exprs(bb)]
+            want = list(range(1, len(roles or []) + 1))
+            if roles != want:
+                ok = False
+                detail = "T::%s receives the parameters in the roles %s instead of %s: not the same operation on the wrapped values" % (name, roles, want)
+        ctx.ob(rule, "NotNone/%s::%s/forwards" % (tr.rsplit("::", 1)[-1], name), ok, b.where(), detail, what="wrapper changes the operation")
     n = 0
     for tr, names in FORWARDED.items():
         have = seen.get(tr, set())
@@ -59,6 +71,40 @@ def rule_r28_notnone_transparent(ctx, prog, rule="R28"):
                        "convert through i64/u64; PartialOrd defaults go through partial_cmp)" % nm, what="wrapper changes the operation")
     ctx.floor(rule, sum(len(v) for v in seen.values()), 40, "trait methods of NotNone<T>")
     return n
+
+
+def operand_role(prog, g, e, depth=0):
+    """index of the routine parameter an operand is (the payload of): through deref / unwrap / clone / field projections, closure
+    captures, and the item of `map` applied to a parameter"""
+    from .rules_layout import up
+    for _ in range(12):
+        e = ds(e)
+        if not isinstance(e, tuple):
+            return None
+        if e[0] == "call" and e[1] in ("deref", "unwrap", "clone", "as_ref", "borrow", "into_inner", "expect", "to_owned", "into", "deref_mut") and e[3]:
+            e = e[3][0]
+            continue
+        if e[0] in ("field", "downcast", "deref", "ref"):
+            e = e[1]
+            continue
+        if e[0] == "upvar":
+            g, e = up(prog, g, e)
+            continue
+        if e[0] == "param":
+            if not g.is_closure:
+                return e[1]
+            site = prog.closure_site(g.key)
+            if site is None or depth > 3:
+                return None
+            parent = site[0]
+            for cbb, ct in parent.calls():
+                if callee_name(ct) in ("map", "and_then", "map_or", "then"):
+                    args = parent.call_arg_exprs(cbb)
+                    if any(isinstance(ds(a), tuple) and ds(a)[:3] == ("agg", "closure", g.key) for a in args[1:]):
+                        return operand_role(prog, parent, args[0], depth + 1)
+            return None
+        return None
+    return None
 
 
 def rule_r29_missing_definition(ctx, prog, rule="R29"):
